@@ -31,6 +31,16 @@ mod util;
 mod val;
 mod vals;
 mod wal;
+mod join;
+mod epo;
+mod par;
+mod jo;
+mod conc2;
+mod hcon;
+mod alg2;
+mod lex2;
+mod fact;
+mod idx;
 
 use std::io::{BufRead, Write};
 
@@ -80,6 +90,16 @@ fn main() {
                 "q" => q::generate(seed, cases, &mut out),
                 "opt" => opt::generate(seed, cases, &mut out),
                 "hnsw" => hnsw::generate(seed, cases, &mut out),
+                "join" => join::generate(seed, cases, &mut out),
+                "epo" => epo::generate(seed, cases, &mut out),
+                "par" => par::generate(seed, cases, &mut out),
+                "jo" => jo::generate(seed, cases, &mut out),
+                "conc2" => conc2::generate(seed, cases, &mut out),
+                "hcon" => hcon::generate(seed, cases, &mut out),
+                "alg2" => alg2::generate(seed, cases, &mut out),
+                "lex2" => lex2::generate(seed, cases, &mut out),
+                "fact" => fact::generate(seed, cases, &mut out),
+                "idx" => idx::generate(seed, cases, &mut out),
                 "wal" => wal::generate(seed, cases, args.iter().any(|a| a == "--thorough"), &mut out),
                 _ => {
                     eprintln!("unknown stream {stream}");
@@ -168,6 +188,16 @@ fn main() {
                     Some("qa") => qa::run(&toks[1..]),
                     Some("c15b") => c15b::run(&toks[1..]),
                     Some("hnsw") => hnsw::run(&toks[1..]),
+                    Some("join") => join::run(&toks[1..]),
+                    Some("epo") => epo::run(&toks[1..]),
+                    Some("par") => par::run(&toks[1..]),
+                    Some("jo") => jo::run(&toks[1..]),
+                    Some("conc2") => conc2::run(&toks[1..]),
+                    Some("hcon") => hcon::run(&toks[1..]),
+                    Some("alg2") => alg2::run(&toks[1..]),
+                    Some("lex2") => lex2::run(&toks[1..]),
+                    Some("fact") => fact::run(&toks[1..]),
+                    Some("idx") => idx::run(&toks[1..]),
                     _ => "bad-op".to_string(),
                 };
                 writeln!(w, "{}", res).unwrap();
